@@ -123,7 +123,7 @@ func (w *World) signerFields(named *types.Named) []string {
 	var out []string
 	cg := w.CG()
 	for _, s := range cg.Sites[fn] {
-		if s.Static != nil && strings.HasSuffix(qualifiedFuncName(s.Static), "types.AccAddressFromBech32") {
+		if s.Static != nil && hasSuffixAny(qualifiedFuncName(s.Static), "types.AccAddressFromBech32", "types.MustAccAddressFromBech32") {
 			a := s.Common().Args[0]
 			if u, ok := a.(*ssa.UnOp); ok {
 				if fa, ok := u.X.(*ssa.FieldAddr); ok {
